@@ -19,7 +19,7 @@ the ghost at the end of every slot.
 from amaranth import *
 from ..harness import Harness
 from ..engine import Query
-from ..lib.host import SlottedHost, TxSpy, KIND_NONE, KIND_SETUP, KIND_IN, KIND_OUT, KIND_SOF, KIND_HSK
+from ..lib.host import SlottedHost, TxSpy, slot_cubes, KIND_NONE, KIND_SETUP, KIND_IN, KIND_OUT, KIND_SOF, KIND_HSK
 from ..lib.device import make_device, tie_device
 
 PROP = "C08"
@@ -35,6 +35,8 @@ ASSUMPTIONS = [
     "no lone handshake packets from the host (it ACKs only data the device actually sent)",
     "bus reset is modelled through VBUS loss (session end) only; the SE0-duration path of the reset sequencer is C19",
     "endpoint 1 stream always offers data (valid = 1, symbolic constant byte)",
+    "the per-slot (kind, CRC-corruption / host-ACK flag, VBUS-lost) choices are enumerated as separate solver queries (cubes); "
+    "OUT data packets are zero-length; the host never sends SETUP to a non-control endpoint",
 ]
 BOUNDS = "BMC from reset over N = 3 (quick) / 4 (thorough) symbolic transactions: all sequences of SETUP / IN / OUT / SOF / idle " \
          "slots to endpoints 0..3 and any address, all SETUP bytes, host ACK present or lost per IN slot, VBUS lost in any slot"
@@ -165,28 +167,45 @@ SET_CFG_1 = 0x0000000000010900
 
 
 def queries(tier):
-    n = 3 if tier == "quick" else 4
-    K = 32 * n + 2
-    f = lambda n=n: AddrHarness(n)
+    f3 = lambda: AddrHarness(3)
     f4 = lambda: AddrHarness(4)
     hints = {
-        "address_set": {"s0_kind": KIND_SETUP, "s0_data": SET_ADDR_15, "s0_addr": 0, "s0_ep": 0, "s1_kind": KIND_IN,
-                        "s1_addr": 0, "s1_ep": 0, "s1_flag": 1},
-        "config_set": {"s0_kind": KIND_SETUP, "s0_data": SET_CFG_1, "s0_addr": 0, "s0_ep": 0, "s1_kind": KIND_IN,
-                       "s1_addr": 0, "s1_ep": 0, "s1_flag": 1},
-        "ep1_ack_while_pending": {"s0_kind": KIND_SETUP, "s0_data": SET_ADDR_15, "s0_addr": 0, "s0_ep": 0,
-                                  "s1_kind": KIND_IN, "s1_addr": 0, "s1_ep": 1, "s1_flag": 1,
-                                  "s2_kind": KIND_IN, "s2_addr": 0, "s2_ep": 0, "s2_flag": 1},
-        "lost_ack_no_change": {"s0_kind": KIND_SETUP, "s0_data": SET_ADDR_15, "s0_addr": 0, "s0_ep": 0,
-                               "s1_kind": KIND_IN, "s1_addr": 0, "s1_ep": 0, "s1_flag": 0},
-        "reset_clears": {"s0_kind": KIND_SETUP, "s0_data": SET_CFG_1, "s0_addr": 0, "s0_ep": 0, "s1_kind": KIND_IN,
-                         "s1_addr": 0, "s1_ep": 0, "s1_flag": 1, "s2_vbuslost": 1},
-        "responds_at_new_address": {"s0_kind": KIND_SETUP, "s0_data": SET_ADDR_15, "s0_addr": 0, "s0_ep": 0,
-                                    "s1_kind": KIND_IN, "s1_addr": 0, "s1_ep": 0, "s1_flag": 1,
-                                    "s2_kind": KIND_SETUP, "s2_addr": 0x15, "s2_ep": 0},
+        "address_set": {"s0_kind": KIND_SETUP, "s0_data": SET_ADDR_15, "s1_kind": KIND_IN, "s1_flag": 1},
+        "config_set": {"s0_kind": KIND_SETUP, "s0_data": SET_CFG_1, "s1_kind": KIND_IN, "s1_flag": 1},
+        "ep1_ack_while_pending": {"s0_kind": KIND_SETUP, "s0_data": SET_ADDR_15, "s1_kind": KIND_IN, "s1_ep": 1, "s1_flag": 1,
+                                  "s2_kind": KIND_IN, "s2_flag": 1},
+        "lost_ack_no_change": {"s0_kind": KIND_SETUP, "s0_data": SET_ADDR_15, "s1_kind": KIND_IN, "s1_flag": 0,
+                               "s2_kind": KIND_IN, "s2_ep": 1, "s2_flag": 1},
+        "reset_clears": {"s0_kind": KIND_SETUP, "s0_data": SET_CFG_1, "s1_kind": KIND_IN, "s1_flag": 1, "s2_vbuslost": 1},
+        "responds_at_new_address": {"s0_kind": KIND_SETUP, "s0_data": SET_ADDR_15, "s1_kind": KIND_IN, "s1_flag": 1,
+                                    "s2_kind": KIND_SETUP, "s2_addr": 0x15, "s2_data": SET_CFG_1},
     }
-    cov3 = ["address_set", "config_set", "ep1_ack_while_pending", "reset_clears", "responds_at_new_address"]
-    qs = [Query(f"bmc_{n}slots", f, K, timeout=2400, hints=hints, covers=cov3 + (["lost_ack_no_change"] if n == 3 else []),
-                desc=f"{n} symbolic transactions incl. endpoint-1 traffic, lost ACKs and VBUS loss"),
-          Query("cosim", lambda: AddrHarness(3), 0, kind="cosim", cosim_cycles=100 if tier == "quick" else 400)]
+    for hd in hints.values():        # witnesses: uncorrupted packets, address 0 / endpoint 0 unless stated, idle otherwise
+        for i in range(4):
+            hd.setdefault(f"s{i}_kind", KIND_NONE)
+            hd.setdefault(f"s{i}_flag", 0)
+            hd.setdefault(f"s{i}_addr", 0)
+            hd.setdefault(f"s{i}_ep", 0)
+            hd.setdefault(f"s{i}_olen", 0)
+            hd.setdefault(f"s{i}_vbuslost", 0)
+    qs = [Query("covers_3slots", f3, 32 * 3 + 2, asserts=[], hints=hints, timeout=900, split=False,
+                covers=["address_set", "config_set", "ep1_ack_while_pending", "lost_ack_no_change", "reset_clears",
+                        "responds_at_new_address"],
+                desc="witnesses: address/configuration set, endpoint-1 ACK while pending, lost status ACK, VBUS loss, new address answers")]
+    # assertions: one solver process per cube of per-slot (kind, flag, VBUS-lost) choices; address, endpoint, data symbolic
+    table = {"V": dict(kind=KIND_NONE, flag=0, vbuslost=1)}
+    dflt = dict(vbuslost=0, olen=0)
+    if tier == "quick":
+        cubes = list(slot_cubes(3, "SIiV", first="S", defaults=dflt, table=table)) + \
+            [c for c in slot_cubes(3, "SI", first="IN", defaults=dflt, table=table) if c[0][1] == "S"]
+    else:
+        cubes = list(slot_cubes(3, "SsIiPoNV", defaults=dflt, table=table))
+    for name, layer in cubes:
+        qs.append(Query(f"bmc_3slots_{name}", f3, 32 * 3 + 2, layer=layer, covers=[], timeout=900, split=False,
+                        desc=f"3 transactions {name}: device address/configuration equal the ghost after every slot"))
+    if tier == "thorough":
+        for name, layer in slot_cubes(4, "SIiV", first="S", defaults=dflt, table=table):
+            qs.append(Query(f"bmc_4slots_{name}", f4, 32 * 4 + 2, layer=layer, covers=[], timeout=900, split=False,
+                            desc=f"4 transactions {name}"))
+    qs.append(Query("cosim", f3, 0, kind="cosim", cosim_cycles=100 if tier == "quick" else 400))
     return qs
